@@ -169,9 +169,16 @@ Header == /\ phase = "header"
                     /\ IF Len(sigs) + 1 = NFuns
                        THEN todo' = [k \in 1..NFuns |-> Sym("FUN", "", k)] /\ phase' = "body"
                        ELSE UNCHANGED <<todo, phase>>
-             ELSE \E r \in BfsRets :
-                    /\ sigs' = <<[ps |-> <<>>, pin |-> FALSE, ret |-> r]>>
-                    /\ todo' = <<Sym("FUN", "", 1)>> /\ phase' = "body"
+             ELSE \/ \E r \in BfsRets :
+                       /\ sigs' = <<[ps |-> <<>>, pin |-> FALSE, ret |-> r]>>
+                       /\ todo' = <<Sym("FUN", "", 1)>> /\ phase' = "body"
+                  \* exhaustive over patterns: one function per scrutinee type, `case p { PAT -> 1 _ -> 1 }`
+                  \/ \E ty \in D1 \ Funs :
+                       /\ sigs' = <<[ps |-> <<ty>>, pin |-> FALSE, ret |-> "Int"]>>
+                       /\ todo' = <<Sym("FUNSTART", "", 1), T("fn"), Sym("FUNNAME", "", 1), T("("), Sym("MARK", "", 0), Sym("PARAM", ty, 1), T(":"), TY(ty), T(")"), T("{"),
+                                    T("case"), T("p1a"), T("{"), Sym("MARK", "", 0), PA(ty), Sym("COMMIT", "", 0), T("->"), T("1"), Sym("POPMARK", "", 0),
+                                    T("_"), T("->"), T("1"), T("}"), T("}"), Sym("POPMARK", "", 0), Sym("FUNEND", "", 1)>>
+                       /\ phase' = "body"
           /\ UNCHANGED <<out, env, budget, nv, cur>>
 
 Tok(t, r, ty) == [t |-> t, r |-> r, ty |-> ty]
